@@ -657,6 +657,10 @@ func TestProp(t *testing.T) {
 		fmt.Sprintf("rapid: each of the %d exported types with UnmarshalBinary (frame parts, identifiers, CFList, MACCommand, the 29 MAC payloads, the Command/Commands wrappers and every payload of the four application-layer packages), both directions, lengths drawn from the lengths each type accepts (+-1) or 0..40, contents uniform / 0x00 / 0xFF, command wrappers steered to known CIDs and hostile mask bytes; the decoded value is then re-encoded, JSON-encoded and asked for its Size. Same oracle. Non-trivial: the decoder accepted the input.", len(gen.Decoders)),
 		300000, 12000000, genBin, checkDec)
 
+	evid.Rapid(r, t, "linear-growth",
+		"rapid: one well-formed command (MAC commands on port 0; random 1..8 byte units starting with a CID 0..9 for the four application-layer Commands decoders) repeated 8 and 64 times; the bytes allocated while decoding (runtime TotalAlloc delta, minimum of 3 runs - deterministic, no wall clock) may grow at most 3 x 8-fold (+8 KiB) for the 8-fold input: quadratic work in a stream decoder shows as 64-fold. Non-trivial: both inputs accepted.",
+		4000, 100000, genGrow, checkGrow)
+
 	evid.Rapid(r, t, "backend-json-text",
 		"rapid: json.Unmarshal into each of the backend payload structs and scalar types from generated JSON objects that use the structs' own member names with hostile values (null, wrong types, 1e400, odd-length / non-hex / huge strings, impossible timestamps, nested arrays/objects), occasionally mutated at byte level; UnmarshalText of EUI64/DevAddr/NetID/AES128Key/DLSettings/HEXBytes/ISO8601Time/PHYPayload on hostile strings; Scan on arbitrary bytes, strings and nil. Same oracle. Non-trivial: syntactically valid JSON / accepted text.",
 		150000, 6000000, genBackend, checkDec)
@@ -666,4 +670,81 @@ func stackTrace() string {
 	buf := make([]byte, 4096)
 	n := runtimeStack(buf)
 	return string(buf[:n])
+}
+
+// ---- linear growth of the work done by the stream decoders ----
+
+type growCase struct {
+	Entry  string   `json:"entry"`
+	Uplink bool     `json:"uplink"`
+	Unit   evid.Hex `json:"unit"` // one well-formed command; the input is the unit repeated 8 and 64 times
+}
+
+func allocBytes(f func()) uint64 {
+	var best uint64 = 1 << 62
+	for i := 0; i < 3; i++ {
+		var a, b runtimeMemStats
+		readMemStats(&a)
+		f()
+		readMemStats(&b)
+		if d := b.TotalAlloc - a.TotalAlloc; d < best {
+			best = d
+		}
+	}
+	return best
+}
+
+func checkGrow(c growCase) evid.Outcome {
+	if len(c.Unit) == 0 || len(c.Unit) > 8 {
+		return evid.Outcome{Skip: true}
+	}
+	run := func(k int) (uint64, bool) {
+		in := bytes.Repeat(c.Unit, k)
+		ok := true
+		n := allocBytes(func() {
+			if c.Entry == "phy-port0" {
+				f := ref.Frame{MType: ref.MTUnconfDown, FPort: 0, FRM: in}
+				if c.Uplink {
+					f.MType = ref.MTUnconfUp
+				}
+				var p lorawan.PHYPayload
+				if p.UnmarshalBinary(f.Encode()) != nil || p.DecodeFRMPayloadToMACCommands() != nil {
+					ok = false
+				}
+				return
+			}
+			d := gen.DecoderByName(c.Entry)
+			if d == nil || d.Decode(d.New(), c.Uplink, in) != nil {
+				ok = false
+			}
+		})
+		return n, ok
+	}
+	small, ok1 := run(8)
+	large, ok2 := run(64)
+	if !ok1 || !ok2 {
+		return evid.Outcome{Class: c.Entry + "/rejected"}
+	}
+	// 8 times the input may cost at most 3 x 8 times the allocation (+ a constant): quadratic work would cost 64 times
+	if large > 24*small+8192 {
+		return evid.Fail("%s (uplink=%v): decoding %d repetitions of %x allocates %d bytes, %d repetitions %d bytes: 8 times the input costs %.1f times the memory (linear work expected)", c.Entry, c.Uplink, 8, []byte(c.Unit), small, 64, large, float64(large)/float64(small))
+	}
+	return evid.Outcome{NonTrivial: true, Class: c.Entry + "/accepted"}
+}
+
+func genGrow(t *rapid.T) growCase {
+	entry := rapid.SampledFrom([]string{"phy-port0", "clocksync.Commands", "multicastsetup.Commands", "fragmentation.Commands", "firmwaremanagement.Commands"}).Draw(t, "entry")
+	up := rapid.Bool().Draw(t, "uplink")
+	c := growCase{Entry: entry, Uplink: up}
+	if entry == "phy-port0" {
+		c.Unit = gen.CmdBytes(t, "cmd", up, rapid.IntRange(1, 6).Draw(t, "n"))
+		if len(c.Unit) > 8 {
+			c.Unit = c.Unit[:1]
+		}
+		return c
+	}
+	// application layer: find a unit by trial - one command of 1..8 bytes that decodes alone
+	c.Unit = gen.Bytes(t, "unit", rapid.IntRange(1, 8).Draw(t, "len"))
+	c.Unit[0] = byte(rapid.IntRange(0, 9).Draw(t, "cid"))
+	return c
 }
